@@ -39,6 +39,8 @@ def make(interp):
         if isinstance(t, tuple):
             return any(b_isinstance(x, u) for u in t)
         if isinstance(t, Dummy):
+            if t._name in ('typing.IO',):
+                return False          # isinstance(x, typing.IO) is False for paths and for real file objects
             raise Unsupported(f'isinstance against unmodelled type {t!r}')
         if isinstance(t, ClassInfo):
             if isinstance(x, (Obj, ExcObj)) and isinstance(x.cls, ClassInfo):
